@@ -313,12 +313,13 @@ theorem explicit_raises_allowed (name : String) (p : Prog) (t : List Ev) (st : B
   simpa using this
 
 /-- the polymath helpers that may be called after the first write of a mutator: cache bookkeeping
-    (`_new_values_`), mask / units algebra on validated operands (`or_`, `mul_units`, `div_units`, `copy`, `reshape`
-    of an index mask), dictionary iteration (`items`), construction of a zero derivative (`zeros`) and the commit
-    primitives whose preconditions the model carries (`insert_deriv`, `insert_derivs`, `delete_derivs`).
-    NumPy and builtin calls are not events (kernel contract). -/
+    (`_new_values_`), mask / units algebra on validated operands (`or_`, `mul_units`, `div_units`, `copy` of the
+    mask), iteration over the derivative dictionary (`items`), construction of a zero derivative (`zeros`) and the
+    commit primitives whose preconditions the model carries (`insert_deriv`, `insert_derivs`, `delete_derivs`).
+    NumPy and builtin calls, and methods that ndarray / dict also have when called on a local variable, are not
+    events (kernel contract). -/
 def commitHelpers : List String :=
-  ["_new_values_", "or_", "mul_units", "div_units", "copy", "reshape", "items", "zeros",
+  ["_new_values_", "or_", "mul_units", "div_units", "copy", "items", "zeros",
    "insert_deriv", "insert_derivs", "delete_derivs"]
 
 open PMV.Events PMV.Gen.Events in
